@@ -65,6 +65,33 @@ func RefUpperD(spec []time.Duration, x time.Duration) time.Duration {
 	return pairs[len(pairs)-1].Hi
 }
 
+// RefPairIndexV returns the index of the bucket a sample is counted in: the
+// first pair (in sorted order, so the leftmost among pairs with equal upper
+// bounds - the only one of them whose interval (lo,hi] can contain the sample)
+// whose upper bound is >= x; -1 for NaN.
+func RefPairIndexV(spec []float64, x float64) int {
+	if math.IsNaN(x) {
+		return -1
+	}
+	pairs := RefPairsV(spec)
+	for i, p := range pairs {
+		if p.Hi >= x {
+			return i
+		}
+	}
+	return len(pairs) - 1
+}
+
+func RefPairIndexD(spec []time.Duration, x time.Duration) int {
+	pairs := RefPairsD(spec)
+	for i, p := range pairs {
+		if p.Hi >= x {
+			return i
+		}
+	}
+	return len(pairs) - 1
+}
+
 // RefName is the left fold p=="" ? n : p+sep+n.
 func RefName(prefix, sep string, parts ...string) string {
 	p := prefix
